@@ -84,13 +84,28 @@ Lemma config_own_refuted :
   walk Q ex_shared = [(["inner"; "a"], 0%nat); (["inner"; "s"], 1%nat); (["s"], 0%nat)] /\
   PAFC01.Proofs.node_at Q ["inner"] ex_shared = Some (NModel "K2" ["a"; "s"] [("a", NPrior 0%nat); ("s", NPrior 1%nat)]) /\
   class_of Q 0 ex_shared = Some "K2" /\ last_path Q 0 ex_shared = Some ["s"] /\ cfg_name ["s"] = Ok "s" /\
+  (own_place_class = false ->          (* the code as it is: lookup_class = prior_class_dict *)
   exists n' s0 s1,
     qpass (-1000)%Q 1000%Q ex_shared_cfg ex_shared_specs (MMeans None None false [(1 # 2)%Q; 1%Q]) ex_shared
       = Ok (n', [(0%nat, s0); (1%nat, s1)]) /\
-    s_sigma Q s0 = 3%Q /\ (s_lo Q s0, s_hi Q s0) = ((-1)%Q, 1%Q).
+    s_sigma Q s0 = 3%Q /\ (s_lo Q s0, s_hi Q s0) = ((-1)%Q, 1%Q)).
 Proof.
   split; [simpl; auto|]. split; [reflexivity|]. split; [reflexivity|]. split; [reflexivity|]. split; [reflexivity|].
-  split; [reflexivity|]. eexists. eexists. eexists. split; [vm_compute; reflexivity|]. split; reflexivity.
+  split; [reflexivity|]. intro Flag.
+  first [discriminate Flag | (eexists; eexists; eexists; split; [vm_compute; reflexivity|]; split; reflexivity)].
+Qed.
+
+(* the repair variant on the same model: parameter 0 is configured under (KN, "s"), the holder and the name of its last
+   place: width 1/4 * |value| and limits -5..5 *)
+Lemma config_one_place_repaired :
+  own_place_class = true ->
+  exists n' s0 s1,
+    qpass (-1000)%Q 1000%Q ex_shared_cfg ex_shared_specs (MMeans None None false [(1 # 2)%Q; 1%Q]) ex_shared
+      = Ok (n', [(0%nat, s0); (1%nat, s1)]) /\
+    (s_sigma Q s0 == (1 # 4) * (1 # 2))%Q /\ (s_lo Q s0, s_hi Q s0) = ((-5)%Q, 5%Q).
+Proof.
+  intro Flag.
+  first [discriminate Flag | (eexists; eexists; eexists; split; [vm_compute; reflexivity|]; split; reflexivity)].
 Qed.
 
 (* ---------- binary64: relative widths on a grid (the bound is in the statement).  A universally quantified binary64
